@@ -9,6 +9,7 @@
 -/
 import JP.Lemmas.Pointer
 import JP.Generated.Tables
+import JP.Lemmas.NegIndex
 namespace JP.Props.C04
 open JP JP.Pointer
 
@@ -83,18 +84,6 @@ example : rfcParse "/a/01/-".toList = some ["a".toList, "01".toList, "-".toList]
 
 /-! ### The library's negative index extension, stated outright (outside RFC 6901, where `-1` is no array index) -/
 
-theorem pyListGet_neg {α} (xs : List α) (k : Nat) (hk : 1 ≤ k) :
-    pyListGet xs (-(k : Int)) = if k ≤ xs.length then xs[xs.length - k]? else none := by
-  unfold pyListGet
-  have h0 : ¬ (0 : Int) ≤ -(k : Int) := by omega
-  simp only [h0, if_false]
-  by_cases h : k ≤ xs.length
-  · have h1 : -(xs.length : Int) ≤ -(k : Int) := by omega
-    have : ((xs.length : Int) + -(k : Int)).toNat = xs.length - k := by omega
-    simp only [h, h1, if_true, this]
-  · have h1 : ¬ -(xs.length : Int) ≤ -(k : Int) := by omega
-    simp only [h, h1, if_false]
-
 /-- A negative index token `-k` (k ≥ 1) counts from the end of an array: it resolves to the element `length - k`, and is
     an index error when the array has fewer than `k` elements. On an object it is the member of that name, like any token. -/
 theorem negative_index_extension (xs : List J) (k : Nat) (hk : 1 ≤ k) :
@@ -104,7 +93,7 @@ theorem negative_index_extension (xs : List J) (k : Nat) (hk : 1 ≤ k) :
         | some v => .ok v
         | none => .error .ptrIndex
        else .error .ptrIndex) := by
-  simp only [getitem, pyListGet_neg xs k hk]
+  simp only [getitem, Lemmas.pyListGet_neg xs k hk]
   by_cases h : k ≤ xs.length
   · simp only [h, if_true]; cases xs[xs.length - k]? <;> rfl
   · simp only [h, if_false]; rfl
